@@ -2,7 +2,16 @@ package main
 
 import (
 	"fmt"
+	"io"
+	"strings"
 	"time"
+
+	"go.pennock.tech/tabular"
+	"go.pennock.tech/tabular/csv"
+	thtml "go.pennock.tech/tabular/html"
+	tjson "go.pennock.tech/tabular/json"
+	"go.pennock.tech/tabular/markdown"
+	"go.pennock.tech/tabular/texttable"
 )
 
 // C09 — every renderer is total: no panic, failure is an error with no text.
@@ -12,7 +21,7 @@ func init() {
 		ID:        "C09",
 		Level:     "model_checking",
 		Technique: "bounded exhaustive exploration of table-building sequences; after every prefix every renderer/style/entry point is run on the real table under recover()",
-		Rule: "all build sequences (AddHeaders/AddRowItems with 0,1,2,11 cells, separators, AppendNewRow, detached rows, Row.Add before and after attach) with cells filled from a 9-item pool (6 of them in quick) " +
+		Rule: "family lifecycle: one table with size-declaring items and long-lived wrappers of every renderer, every sequence of <=4 (thorough 5) in-place modifications (items mutated to more/fewer lines, other widths, hostile or empty text + Update; headers replaced incl. duplicates; rows grown), render-all and failed RenderTo; other families: all build sequences (AddHeaders/AddRowItems with 0,1,2,11 cells, separators, AppendNewRow, detached rows, Row.Add before and after attach) with cells filled from a 9-item pool (6 of them in quick) " +
 			"(plain, empty, two-line, nil, declared height below/above the line count, declared width 0, negative sizes, empty text with declared width) to depth 3 (quick; depth 4 plain-items) / 4 and 6 (thorough), " +
 			"plus every anomalous 2-op shape appended after every prefix of a 12-op rectangular build; after EVERY prefix each of ~30 render targets (5 renderers x wrapper method/package function/auto style, every registered decoration, a custom and an unknown one) runs Render and RenderTo; " +
 			"non-trivial = state with a zero-cell/ragged/post-attach row, separator, empty header or an item whose declared size disagrees with its text; distinct by reference state incl. fills",
@@ -55,6 +64,18 @@ func runC09(x *X) {
 			c09RenderAll(x, c, b, targets)
 		})
 	}
+	// lifecycle: long-lived wrappers of every renderer on one table that is modified in place between renders
+	ldepth := x.Pick(4, 5)
+	lops := lifeOps(false, false)
+	x.Explore("lifecycle", ExploreOpts{ShardDepth: 2, Bound: fmt.Sprintf("one table (one item declaring height 1, one declaring width 4) + long-lived wrappers of all renderers: all sequences of <=%d operations over %d in-place modifications/settings, render-all, failed RenderTo", ldepth, len(lops))}, func(c *Chooser) {
+		lifecycle(x, c, "C09", ldepth, lops, true, func(t tabular.Table) lifeRenderer { return newC09All(t) },
+			func(m *lifeModel, tags []string, out string, err error) {
+				x.Clause("C09.error_means_no_text")
+				if err != nil {
+					x.Fail("C09.error_means_no_text", tags, "%v (after %v)", err, m.ops)
+				}
+			})
+	})
 	// systematic long family: anomalous suffixes after every prefix of a long regular build
 	x.Explore("long-prefix+anomaly", ExploreOpts{ShardDepth: 2, Bound: fmt.Sprintf("prefix of a 12-op rectangular build (13) x all suffixes of <=%d ops over the full alphabet", x.Pick(1, 2))}, func(c *Chooser) {
 		b := NewBuilder(full)
@@ -150,4 +171,44 @@ func c09RenderAll(x *X, c *Chooser, b *Builder, targets []Target) {
 			x.Outcome(tg.Format + " ok")
 		}
 	}
+}
+
+// c09All: long-lived wrappers of every renderer around one table; Render runs them all (panics propagate
+// to the caller's recover) and reports an error only for the C09 clause "error together with text".
+type c09All struct {
+	rs    []lifeRenderer
+	names []string
+}
+
+func newC09All(t tabular.Table) *c09All {
+	a := &c09All{}
+	add := func(n string, r lifeRenderer) { a.rs = append(a.rs, r); a.names = append(a.names, n) }
+	add("csv", csv.Wrap(t))
+	add("json", tjson.Wrap(t))
+	add("markdown", markdown.Wrap(t))
+	add("html", thtml.Wrap(t).SetRowClassGenerator(rowClassGen, nil))
+	add("text", texttable.Wrap(t))
+	tt := texttable.Wrap(t)
+	tt.SetDecorationNamed("none")
+	add("text:none", tt)
+	return a
+}
+
+func (a *c09All) Render() (string, error) {
+	var sb strings.Builder
+	for i, r := range a.rs {
+		out, err := r.Render()
+		if err != nil && out != "" {
+			return "", fmt.Errorf("%s returned error %q together with %d bytes of text", a.names[i], err, len(out))
+		}
+		sb.WriteString(out)
+	}
+	return sb.String(), nil
+}
+
+func (a *c09All) RenderTo(w io.Writer) error {
+	for _, r := range a.rs {
+		r.RenderTo(&faultWriter{mode: 1, k: 2})
+	}
+	return nil
 }
